@@ -2,7 +2,7 @@
 
 import math
 
-from kernel.type import RealType
+from kernel.type import RealType, NatType, IntType
 from kernel.term import Term, Var, Lambda, Inst, Nat, Real, Eq
 from kernel.thm import Thm
 from kernel.proofterm import ProofTerm, TacticException
@@ -11,6 +11,7 @@ from kernel.theory import register_macro
 from logic.conv import Conv, ConvException, then_conv, binop_conv, arg_conv, arg1_conv, rewr_conv
 from logic.logic import apply_theorem
 from data import nat
+from data import integer
 from data import real
 from data import set as hol_set
 from logic import auto
@@ -205,6 +206,34 @@ class ConstInequalityMacro(Macro):
         self.limit = None
 
     def can_eval(self, goal, prevs):
+        # The evaluation below follows the semantics of real numbers. Goals on
+        # natural numbers and integers are evaluated exactly at their own type
+        # (in particular with truncated subtraction on natural numbers).
+        t = goal.arg if goal.is_not() else goal
+        if not (t.is_equals() or t.is_compares()):
+            return False
+        T = t.arg1.get_type()
+        if T in (NatType, IntType) and len(prevs) == 0:
+            try:
+                if T == NatType:
+                    a, b = nat.nat_eval(t.arg1), nat.nat_eval(t.arg)
+                else:
+                    a, b = integer.int_eval(t.arg1), integer.int_eval(t.arg)
+            except ConvException:
+                return False
+            if t.is_equals():
+                res = (a == b)
+            elif t.is_less():
+                res = (a < b)
+            elif t.is_less_eq():
+                res = (a <= b)
+            elif t.is_greater():
+                res = (a > b)
+            else:
+                res = (a >= b)
+            return (not res) if goal.is_not() else res
+        elif T != RealType:
+            return False
         if len(prevs) == 0:
             res = eval_inequality_expr(goal)
             return res
